@@ -22,7 +22,8 @@ from common import Atom, Case, Run, ImplError, prepare
 import c07
 import worker_seed
 
-PROOFS = ["FGVerif.Proofs.C06"]
+PROOFS = ["FGVerif.Proofs.C06", "FGVerif.Proofs.C06Full", "FGVerif.Proofs.C06Relabel", "FGVerif.Proofs.C06Default",
+          "FGVerif.Proofs.C06Total"]
 
 def load_corpus():
     """fixed regression inputs: corpus/C06/molecules.json (witnesses of F4 and K3, sibling-tie molecules)"""
@@ -157,6 +158,54 @@ def tree_cases(info, order, results_by_seed, envseed, tags):
                  nontrivial_key=("tree", tuple(meta["patterns"]), tuple(order)), tags=sorted(t))]
 
 
+def e2e_cfg_wire(d):
+    """one config dict -> the arguments of FGConfig.__init__ on the wire (graphs parsed by the real parser,
+    anti-patterns in the order given)"""
+    from fgutils.parse import Parser
+    anti = d.get("anti_pattern", [])
+    anti = anti if isinstance(anti, list) else [anti]
+    ga = d.get("group_atoms")
+    return [d["name"], d["pattern"], common.enc_graph(Parser().parse(d["pattern"])),
+            None if ga is None else [int(x) for x in ga], [common.enc_graph(Parser()(p)) for p in anti],
+            None if d.get("depth") is None else int(d["depth"])]
+
+
+def e2e_case(dicts, order, mol, mol_id, rh, envseed, tags):
+    """END-TO-END correspondence: `FGQuery(config=[…], require_implicit_hydrogen=rh).get(mol)` of the code
+    against the composed model `C06.fgQueryGetM` (tree builder + adapter + query) — exact output"""
+    from fgutils.fgconfig import FGConfig
+    from fgutils.query import FGQuery
+    ordered = [dicts[i] for i in order]
+    g = worker_seed.mk_graph(mol)
+
+    def real():
+        q = FGQuery(config=[FGConfig(**dict(d)) for d in ordered], require_implicit_hydrogen=rh)
+        return [[name, [int(i) for i in ids]] for name, ids in q.get(g)]
+
+    out = common.call_impl(real)
+    req = [Atom("C06"), Atom("e2e"), c07.MAPPER, [e2e_cfg_wire(d) for d in ordered], envseed, common.enc_graph(g), bool(rh)]
+    nonempty = isinstance(out, list) and len(out) > 0
+    meta = {"e2e": {"cfgs": dicts, "order": list(order), "mol": mol, "id": mol_id, "require_h": bool(rh), "envseed": envseed}}
+    t = list(tags) + ["e2e", "e2e:answer-nonempty" if nonempty else ("e2e:raised" if isinstance(out, ImplError) else "e2e:answer-empty"),
+                      "e2e:requireH=%d" % int(bool(rh))]
+    return Case(req, out, meta=meta, tags=t,
+                nontrivial_key=("e2e", tuple(d["pattern"] for d in ordered), mol_id, bool(rh)) if nonempty else None)
+
+
+def e2e_with_group_atoms(rng, dicts):
+    """a copy of the list in which some entries get an explicit `group_atoms` subset"""
+    from fgutils.parse import Parser
+    out = []
+    for d in dicts:
+        d = dict(d)
+        if "group_atoms" not in d and rng.random() < 0.35:
+            nodes = list(Parser().parse(d["pattern"]).nodes)
+            k = rng.randint(1, len(nodes))
+            d["group_atoms"] = sorted(rng.sample(nodes, k))
+        out.append(d)
+    return out
+
+
 def plan_seeds(rng, tier):
     if tier == "quick":
         return [0, 1, 2, 3, 4, rng.randrange(5, 2 ** 32 - 1)]
@@ -277,7 +326,43 @@ def run(tier, seed):
         info, orders, tags = infos[li]
         if ji in by_tree:
             cases += tree_cases(info, orders[oi], by_tree[ji], envseed=ji % 7, tags=tags)
+    # ---- end to end: real FGQuery(config=…).get against the composed model (sample per run) ----------
+    from fgutils.fgconfig import _default_fg_config
+    n_lists, n_per = (8, 4) if tier == "quick" else (60, 8)
+    e2e_plans = [(list(_default_fg_config), {"default-list"}, 2 * n_per)]
+    gen_infos = [(info, tags) for info, _, tags in infos if not info.is_default]
+    for info, tags in rng.sample(gen_infos, min(n_lists, len(gen_infos))):
+        e2e_plans.append((e2e_with_group_atoms(rng, info.dicts), set(tags) | {"generated"}, n_per))
+    e2e_built = 0
+    n_corpus = len(corpus) if tier != "quick" else 12
+    for dicts, tags, k in e2e_plans:
+        # the default list is asked the corpus molecules first (sibling ties: the witnesses of F4), then random ones
+        picks = list(range(min(n_corpus, len(mols)))) if "default-list" in tags else []
+        picks += [rng.randrange(len(mols)) for _ in range(k)]
+        for mi in picks:
+            mol, mol_id, _t = mols[mi]
+            order = list(range(len(dicts)))
+            if rng.random() < 0.5:
+                rng.shuffle(order)
+            try:
+                cases.append(e2e_case(dicts, order, mol, mol_id, rng.random() < 0.7, rng.randrange(0, 7), sorted(tags)))
+                e2e_built += 1
+            except Exception:
+                setup_failed += 1
     outs = r.evaluate(cases)
+    e2e_outs = [o for o in outs if o.ok_reply and o.case.req[1] == "e2e"]
+    # C06.query_end_to_end_total: distinct pattern strings alone make the outcome (answer or AssertionError) independent
+    e2e_dep = sum(1 for o in e2e_outs if len(o.extra) >= 3 and o.extra[1] == "1" and o.extra[0] != "1")
+    r.extra_cov.update({"end_to_end_cases": e2e_built,
+                        "end_to_end_cases_within_the_hypotheses_of_query_end_to_end":
+                            sum(1 for o in e2e_outs if len(o.extra) >= 3 and o.extra[1] == "1" and o.extra[2] == "1"),
+                        "end_to_end_cases_with_distinct_pattern_strings_(query_end_to_end_total)":
+                            sum(1 for o in e2e_outs if len(o.extra) >= 3 and o.extra[1] == "1"),
+                        "end_to_end_model_answers_depending_on_set_order_or_list_order": e2e_dep})
+    if e2e_dep:
+        r.violation_lines.append("VIOLATION property=C06 replay=%s no-failing-input-found" % r.write_replay(
+            "proof-obligation", "e2e_env_dependent_model",
+            {"theorem_or_correspondence": ["C06.query_end_to_end_total: the composed model's outcome depends on the set-iteration order / list order on %d case(s) with pairwise distinct pattern strings" % e2e_dep]}))
     env_dep = sum(1 for o in outs if o.ok_reply and o.case.req[1] == "tree" and o.case.in_domain and o.extra and o.extra[0] != "1")
     order_contract = sum(1 for o in outs if o.ok_reply and o.case.req[1] == "tree" and o.case.in_domain
                          and len(o.extra) > 1 and o.extra[1] != "1")
@@ -293,7 +378,9 @@ def run(tier, seed):
             "proof-obligation", "env_dependent_model",
             {"theorem_or_correspondence": ["C06.env_independent: the model's ordered tree depends on the set-iteration order parameter on %d generated list(s)" % env_dep]}))
     r.assumptions = [
-        "the query algorithm (C05) enters the model as a parameter q that reads the tree only through its items, roots list and children lists",
+        "Proofs/C06.lean: the query algorithm (C05) enters as a parameter q that reads the tree only through its items, roots list and children lists; "
+        "Proofs/C06Full.lean composes tree builder (C07), cache and query (C05) and proves the statement for the composed model "
+        "(hypothesis: pairwise distinct pattern strings; with 'the both-directions assertion cannot fire' the outcome is an answer); the composed model is compared exactly with FGQuery(config=…).get on a sample per run",
         "CPython hash randomisation and object addresses are not modelled: they are exercised by fresh interpreter processes under PYTHONHASHSEED " + str(seeds[:6]) + ("…" if len(seeds) > 6 else ""),
         "input_untouched is true of the model by construction; for the code it is checked by snapshots of the caller's graph (node order, attributes, adjacency order, edge attributes, graph attributes) around every call",
     ]
@@ -302,10 +389,13 @@ def run(tier, seed):
         rule="molecules: corpus (incl. every witness of F4/K3) + generated SMILES (O=C(X)Y family on which sibling groups tie; chains with functional groups), "
              "given as RDKit graphs, parser graphs with id offsets, or graphs with sparse shuffled ids; every molecule asked twice on a long-lived object and once on a fresh object in each "
              "of several fresh interpreters with different PYTHONHASHSEED and different molecule orders; ordered trees of the default list and generated lists compared with the model; "
+             "end-to-end answers of FGQuery(config=list).get on the default list (corpus + random molecules) and on a sample of generated lists (some with explicit group_atoms) compared exactly with the composed model; "
              "non-trivial = molecule with a non-empty answer / one tree job",
-        checker_cmd="cd lean && lake build FGVerif.Proofs.C06 && lake env lean FGVerif/Audit/C06.lean",
+        checker_cmd="cd lean && lake build " + " ".join(PROOFS) + " && lake env lean FGVerif/Audit/C06.lean",
         explanation="theorems in lean/FGVerif/Proofs/C06.lean (history independence via the cache invariant; independence of the ordered tree from the set-iteration order and the list order for pairwise "
-                    "distinct keys; decided witness that the unrepaired hash key is order-dependent); runtime determinism and purity checked by the executable spec `C06 det` on the answers of fresh interpreters")
+                    "distinct keys; decided witness that the unrepaired hash key is order-dependent); Proofs/C06Full.lean, C06Total.lean, C06Relabel.lean, C06Default.lean: the same for the COMPOSED model "
+                    "(tree builder + cache + C05's query; hypothesis: pairwise distinct pattern strings), the default list kernel-checked against the tree extracted from the real get_tree(), "
+                    "and exact comparison of the composed model with FGQuery(config=…).get on a sample of lists and molecules (`C06 e2e`); runtime determinism and purity checked by the executable spec `C06 det` on the answers of fresh interpreters")
 
 
 def replay(path):
@@ -325,6 +415,12 @@ def replay(path):
                 x.get("before") == x.get("after1") == x.get("after2") and x.get("fresh_before") == x.get("fresh_after")))
         c = det_case(meta["mol"], meta["id"], ["replay"], per)
         r.evaluate([c] if c else [])
+    elif "e2e" in meta:
+        e = meta["e2e"]
+        c = e2e_case(e["cfgs"], e["order"], e["mol"], e["id"], e["require_h"], e["envseed"], ["replay"])
+        for o in r.evaluate([c]):
+            print("replay: end-to-end order=%s mol=%s requireH=%s\n  impl=%s\n  model=%s extras=%s" % (
+                e["order"], e["id"], e["require_h"], common.sx_of(o.impl_c), common.sx_of(o.model), common.sx_of(o.extra)))
     elif "order" in meta:
         info = c07.ListInfo(meta.get("cfgs"))
         job = {"op": "tree", "cfgs": meta.get("cfgs"), "order": meta["order"], "direct": False}
